@@ -705,6 +705,12 @@ impl Tokens {
                             re.push_str(&char_to_escaped_literal(r.1));
                         }
                     }
+                    if negated && options.literal_separator {
+                        // Like `*` and `?`, "anything but ..." never
+                        // includes a path separator when separators are
+                        // literal.
+                        re.push('/');
+                    }
                     re.push(']');
                 }
                 Token::Alternates(ref patterns) => {
